@@ -781,7 +781,9 @@ class ParameterFilter:
 
         subindexes = create_subindexes(indexes, myindex)
 
-        if not subindexes:
+        # The key is always present once it is indexed; the parameter exists
+        # only if a value was recorded for it.
+        if not subindexes.get(None):
             return False
 
         for child in self.children:
